@@ -155,6 +155,7 @@ def Clause.text : Clause → String
   | .c04Unrelated r => s!"C04: r{r} cancelled although no cancellation for its id was processed and it has not finished"
   | .c04NotCancelled id r => s!"C04: Cancel({id}) did not cancel the handler context of r{r}"
   | .c04CtxStuck n => s!"C04: cancelling the context of c{n} did not make the call return"
+  | .c04CancelUnasked id => s!"C04: Cancel was invoked for id {id} although no notifications/cancelled named {id} (the canceller mis-decoded the request id): a request the peer did not name may be cancelled, and the one it named is not"
   | .c05TcTwice => "C05: transport closed more than once"
   | .c05OdTwice => "C05: onDone ran more than once"
   | .c05ClosedBusy => "C05: transport closed while requests were still in flight"
